@@ -47,6 +47,7 @@ func init() {
 			fr.i.w.allocLimit = asInt64(fr.i.w.concrete(args[0]))
 			return nil
 		},
+		"Disjoint":      verifDisjoint,
 		"ReadOnlyBegin": verifReadOnlyBegin,
 		"ReadOnlyEnd": func(fr *frame, args []value) value {
 			fr.i.w.roActive = false
